@@ -594,6 +594,38 @@ def rule12_shared(ctx, fl):
         c14.rule_body(ctx, fl)
 
 
+def rule15_self_equal(ctx, fl):
+    ctx.doc('C16.15', 'pthread_self / pthread_equal (forwarded by C16.1): the body of self returns the thread the executing worker is '
+            'running (env->this_thread of the current env), the body of equal is non-zero exactly when its two arguments are the same '
+            'thread')
+    v = ctx.view('myth_if_native.c', roots=['myth_self_body', 'myth_equal_body'],
+                 stops=('myth_ensure_init', 'myth_get_current_env_noinline', 'myth_init_ex_body') + lib.SPIN_STOPS, flavour=fl)
+    f = ctx.need_fn(v, 'myth_self_body')
+    rets = [r for r in f.order if r.op == 'ret' and r.ops]
+    ok = bool(rets)
+    for r in rets:
+        l = f.get(f.strip(r.ops[0]))
+        ok = ok and l is not None and l.op == 'load' and f.field(l) == 'myth_running_env.this_thread'
+        if ok:
+            from .c02 import rank_index
+            root = f.get(f.strip(f.ap(l.ops[0]).root))
+            cur = root is not None and ((root.op == 'call' and (root.callee or '').startswith('myth_get_current_env')) or
+                                        (root.op == 'load' and isinstance(root.ops[0], dict) and root.ops[0].get('g') == 'g_envs'))
+            if cur and root.op == 'load':
+                st = [x for x in f.ap(l.ops[0]).steps if x[0] == 'p']
+                cur = len(st) == 1 and rank_index(f, st[0][1])
+            ok = ok and cur
+    ctx.ob('C16.15', 'myth_self_body returns the executing worker\'s current thread', ok, 'env->this_thread of the current env', loc=f.loc)
+    g = ctx.need_fn(v, 'myth_equal_body')
+    rets = [r for r in g.order if r.op == 'ret' and r.ops]
+    okg = bool(rets)
+    for r in rets:
+        ic = g.get(g.strip(r.ops[0]))
+        okg = okg and ic is not None and ic.op == 'icmp' and ic.pred == 'eq' and sorted(g.strip(o) for o in ic.ops) == ['a0', 'a1']
+    ctx.ob('C16.15', 'myth_equal_body compares its two arguments for identity', okg, 'return t1 == t2', loc=g.loc)
+    ctx.floor('C16.15', 2)
+
+
 def rule8_real(ctx):
     ctx.doc('C16.8', 'myth_real.c, every real_<f> in every flavour: it reaches the system function of the same name - through '
             'real_function_table.<f> (preloading), __real_<f> (link-time wrapping) or <f> itself (vanilla) - passing its own '
@@ -664,6 +696,7 @@ def run(ctx):
         rule10_yield(ctx, fl)
         rule11_sleep(ctx, fl)
         rule12_shared(ctx, fl)
+        rule15_self_equal(ctx, fl)
     ctx.unit = 'real'
     rule8_real(ctx)
     ctx.unit = 'link'
@@ -676,6 +709,8 @@ OPTS = 'src/myth-ld.opts'
 C16M1_OLD = "  long ns = a->tv_nsec + b->tv_nsec;\n  c->tv_nsec = ns % 1000000000;"
 C16M1_NEW = "  long ns = (a->tv_nsec + b->tv_nsec) % 1000000000;\n  c->tv_nsec = ns;"
 MUTANTS = [
+    {'name': 'pthread_equal body compares the first argument with itself', 'expect': 'C16.15',
+     'edits': [('src/myth_tls_func.h', "  return t1 == t2;", "  return t1 == t1;")]},
     {'name': 'deadline addition loses the nanosecond carry (seed3 C16/m1)', 'expect': 'C16.11',
      'edits': [('src/myth_sched_func.h', C16M1_OLD, C16M1_NEW)]},
     {'name': 'yield re-queues the yielder at the head (seed3 C16/m2)', 'expect': 'C16.10',
